@@ -13,7 +13,8 @@ from contracts.common import FnObligation
 from vf import pyvc
 from vf.pyvc import Executor, Rec, SArr, Key, prove, zint
 
-SRC = "/repo/jinns/data/_DataGenerators.py"
+from vf.paths import R
+SRC = R("/repo/jinns/data/_DataGenerators.py")
 DG = "jinns.data._DataGenerators:"
 META = dict(
     trusted_base=["Engine A: Python subset semantics and jnp models of vf/pyvc.py (repeat / tile / concatenate / reshape as index "
@@ -172,7 +173,7 @@ def get_batch_ob(dim, cartesian, with_border, flag=None):
             f"{'' if flag is cartesian else ',flag_given_as=' + repr(flag)}]")
     def run(seed):
         t0 = time.time()
-        ex = Executor([SRC, "/repo/jinns/data/_Batchs.py"])
+        ex = Executor([SRC, R("/repo/jinns/data/_Batchs.py")])
         bt, bx, bb = z3.Ints("bt bx bb")
         F = 2 * dim
         t, x = arr("t", (bt,)), arr("x", (bx, dim))
